@@ -99,7 +99,7 @@ EXTRAS = ["forward", "kill", "204"]
 # recording order interleaves the near-colliding recordings with the two fully equal ones
 # (the response-less r3 is not last, so that a recording appended later competes with a servable older one)
 INITIAL = ["r0", "r2", "r4", "r3", "r1"]
-QUICK = {"initial": INITIAL, "addable": ["r5"], "requests": ["q0", "q1", "q2", "q3", "q4", "q5", "qa", "qc"]}  # (qd..qg: thorough)
+QUICK = {"initial": INITIAL, "addable": ["r5"], "requests": ["q0", "q1", "q2", "q3", "q4", "q5", "qa", "qc", "qd"]}  # (qe..qg: thorough; qd keeps the revert of the ;params fix detected)
 QUICK_DEEP = {"initial": INITIAL, "addable": ["r5"], "requests": ["q0", "q1", "q3"], "extras": [],
               "toggles": ["ignore_host", "ignore_content", "ignore_payload_params", "reuse"]}
 THOROUGH = {"initial": INITIAL, "addable": ["r5", "r6", "r7", "r8", "r9"],
